@@ -2,6 +2,8 @@ package vuego
 
 import (
 	"fmt"
+	"reflect"
+	"sort"
 	"sync"
 
 	"github.com/expr-lang/expr"
@@ -60,6 +62,41 @@ var stringBuiltin = expr.Function("string", func(params ...any) (any, error) {
 	return helpers.Sprint(params[0]), nil
 }, new(func(any) string))
 
+// sortedMapBuiltin replaces one of the evaluator's keys(), values() and toPairs(): those
+// enumerate a map in Go's random iteration order, so that the same template and data
+// gave a different output (and a different v-if) from one render to the next. The
+// entries are visited in the order v-for uses (mapKeyLess).
+func sortedMapBuiltin(name string, entry func(key, val reflect.Value) any) expr.Option {
+	return expr.Function(name, func(params ...any) (any, error) {
+		if len(params) != 1 {
+			return nil, fmt.Errorf("%s() expects 1 argument, got %d", name, len(params))
+		}
+		rv := reflect.ValueOf(params[0])
+		if rv.Kind() != reflect.Map {
+			return nil, fmt.Errorf("%s() expects a map, got %T", name, params[0])
+		}
+		keys := rv.MapKeys()
+		sort.Slice(keys, func(a, b int) bool {
+			return mapKeyLess(keys[a], keys[b])
+		})
+		out := make([]any, 0, len(keys))
+		for _, key := range keys {
+			val := rv.MapIndex(key)
+			if !val.IsValid() {
+				continue
+			}
+			out = append(out, entry(key, val))
+		}
+		return out, nil
+	}, new(func(any) []any))
+}
+
+var (
+	keysBuiltin    = sortedMapBuiltin("keys", func(key, _ reflect.Value) any { return key.Interface() })
+	valuesBuiltin  = sortedMapBuiltin("values", func(_, val reflect.Value) any { return val.Interface() })
+	toPairsBuiltin = sortedMapBuiltin("toPairs", func(key, val reflect.Value) any { return []any{key.Interface(), val.Interface()} })
+)
+
 // getProgram returns a cached compiled program or compiles a new one.
 func (e *ExprEvaluator) getProgram(expression string) (*vm.Program, error) {
 	e.mu.RLock()
@@ -70,7 +107,7 @@ func (e *ExprEvaluator) getProgram(expression string) (*vm.Program, error) {
 	e.mu.RUnlock()
 
 	// Compile the expression
-	prog, err := expr.Compile(expression, expr.AllowUndefinedVariables(), expr.DisableBuiltin("count"), stringBuiltin)
+	prog, err := expr.Compile(expression, expr.AllowUndefinedVariables(), expr.DisableBuiltin("count"), stringBuiltin, keysBuiltin, valuesBuiltin, toPairsBuiltin)
 	if err != nil {
 		return nil, fmt.Errorf("compile error: %w", err)
 	}
